@@ -372,6 +372,38 @@ void RunMisc(const vx::Cell& cell) {
     int* mine = tlsPtr.Get();
     VX_EXPECT(mine == &cells[0], "tls-per-fiber", "thread-local pointer of the parent was changed by its children");
     tlsPtr = nullptr;
+  } else if (what == "eh") {
+    // The C++ runtime keeps the stack of exceptions being handled in thread-local storage.  A std::thread that is
+    // inside a catch block while another std::thread throws and catches is unaffected; so must a fiber be.
+    int ok[2] = {0, 0};
+    std::vector<yaclib_std::thread> ts;
+    for (int i = 0; i < 2; ++i) {
+      ts.emplace_back([&, i] {
+        try {
+          throw Boom{10 + i};
+        } catch (...) {
+          vx::Point();  // the other thread may run here, inside this handler
+          const int mine = ExceptionCode(std::current_exception());
+          VX_EXPECT(mine == 10 + i, "exception-state-per-fiber",
+                    "inside its catch block thread %d sees exception %d as the current one, it threw %d", i, mine, 10 + i);
+          vx::Point();
+          try {
+            throw;  // rethrows the exception this handler is handling
+          } catch (const Boom& b) {
+            VX_EXPECT(b.n == 10 + i, "exception-state-per-fiber", "thread %d rethrew its current exception and caught %d", i, b.n);
+            ok[i] = b.n == 10 + i ? 1 : 0;
+          } catch (...) {
+            VX_EXPECT(false, "exception-state-per-fiber", "thread %d rethrew its current exception and caught something else", i);
+          }
+        }
+        VX_EXPECT(std::uncaught_exceptions() == 0 && std::current_exception() == nullptr, "exception-state-per-fiber",
+                  "thread %d still has a current exception after leaving its handler", i);
+      });
+    }
+    for (auto& t : ts) {
+      t.join();
+    }
+    VX_EXPECT(ok[0] == 1 && ok[1] == 1, "exception-state-per-fiber", "handlers completed: %d %d", ok[0], ok[1]);
   }
 }
 
@@ -439,7 +471,7 @@ std::vector<std::string> Cells(int tier) {
       }
     }
   }
-  for (const char* what : {"join", "sleep", "tls"}) {
+  for (const char* what : {"join", "sleep", "tls", "eh"}) {
     cells.push_back(std::string{"prim=misc,what="} + what);
   }
   return cells;
